@@ -1,6 +1,10 @@
 package conformance
 
 import (
+	"encoding/binary"
+	"io"
+	"log"
+	"os"
 	"testing"
 
 	"github.com/m7913d/go-ntlm/ntlm"
@@ -57,4 +61,34 @@ func TestNtlmVerifierAssumption(t *testing.T) {
 			t.Fatalf("wrong password %q accepted", wrong)
 		}
 	}
+}
+
+// ntlm.spec marks ParseNegotiateMessage, ParseAuthenticateMessage, (*PayloadStruct).String and
+// ProcessAuthenticateMessage as `maypanic`. These witnesses (found by fuzzing the library) show that the
+// marking is not vacuous pessimism; the test only logs, since a library that stopped panicking would
+// make the assumption conservative, not wrong.
+func TestNtlmLibraryPanicWitnesses(t *testing.T) {
+	log.SetOutput(io.Discard)
+	defer log.SetOutput(os.Stderr)
+	try := func(name string, f func()) {
+		defer func() {
+			if p := recover(); p != nil {
+				t.Logf("%s panics: %v", name, p)
+			} else {
+				t.Logf("%s did not panic on its witness", name)
+			}
+		}()
+		f()
+	}
+	short := append([]byte("NTLMSSP\x00\x01\x00\x00\x00"), 0, 0, 0, 0, 1, 2, 3, 4) // 20 bytes, no flags
+	try("ParseNegotiateMessage(20-byte type 1 message)", func() { ntlm.ParseNegotiateMessage(short) })
+	wrap := make([]byte, 96)
+	copy(wrap, "NTLMSSP\x00")
+	binary.LittleEndian.PutUint32(wrap[8:], 3)
+	binary.LittleEndian.PutUint16(wrap[12:], 0x20)
+	binary.LittleEndian.PutUint32(wrap[16:], 0xFFFFFFF0) // offset+len wraps around 2^32
+	try("ParseAuthenticateMessage(payload offset 0xFFFFFFF0)", func() { ntlm.ParseAuthenticateMessage(wrap, 2) })
+	odd, _ := ntlm.CreateBytePayload([]byte{0x41, 0x00, 0x42})
+	odd.Type = ntlm.UnicodeStringPayload
+	try("(*PayloadStruct).String(odd-length UTF-16)", func() { _ = odd.String() })
 }
